@@ -175,8 +175,20 @@ def run(chk, tier, seed):
         for real in reals:
             sjobs.append((km, real))
 
+    def races_in(real, stderr, seen):
+        races = re.findall(r"WARNING: ThreadSanitizer: data race.*?(?=\n\n|\Z)", stderr, flags=re.S)
+        for rep in races:
+            fn = re.findall(r"#0 (\S+)", rep)
+            key = ",".join(sorted(set(fn[:2])))
+            if key in seen: continue
+            seen.add(key)
+            chk.violation("race:%s:%s" % (real, key), "ThreadSanitizer reports a data race on %s state (stress run):\n%s" % (real, rep[:2500]),
+                          dict(kind="tsan", container=real))
+        return len(races)
+
     def stress(job):
         km, real = job
+        seen = set()
         for mode, binary in (("plain", exe), ("tsan", tsan)):
             hist = os.path.join(wd, "stress-%s-%s.ndjson" % (real, mode))
             env = dict(os.environ, TSAN_OPTIONS="exitcode=0:halt_on_error=0:report_signal_unsafe=0")
@@ -187,19 +199,28 @@ def run(chk, tier, seed):
                               dict(kind="stress", container=real, mode=mode))
                 continue
             if mode == "tsan":
-                races = re.findall(r"WARNING: ThreadSanitizer: data race.*?(?=\n\n|\Z)", p.stderr, flags=re.S)
-                seen = set()
-                for rep in races:
-                    fn = re.findall(r"#0 (\S+)", rep)
-                    key = ",".join(sorted(set(fn[:2])))
-                    if key in seen: continue
-                    seen.add(key)
-                    chk.violation("race:%s:%s" % (real, key), "ThreadSanitizer reports a data race on %s state (stress run):\n%s" % (real, rep[:2500]),
-                                  dict(kind="tsan", container=real))
-                chk.parts.setdefault("tsan_runs", {})[real] = dict(reports=len(races))
+                chk.parts.setdefault("tsan_runs", {})[real] = dict(reports=races_in(real, p.stderr, seen))
             n, bad = lincheck(chk, km, real, hist, "stress-%s-%s" % (real, mode))
             report_bad(chk, real, hist, bad, "stress-%s" % mode, dict(mode=mode))
             if not bad: os.remove(hist)
+
+        # long unbarriered bursts on the race-detecting build: too long to decide linearizability, judged by the race detector alone
+        # (a race that loses no update in the schedules tried is visible to nothing else, and short rounds on a busy machine run
+        # almost one thread at a time)
+        hist = os.path.join(wd, "dense-%s.ndjson" % real)
+        env = dict(os.environ, TSAN_OPTIONS="exitcode=0:halt_on_error=0:report_signal_unsafe=0")
+        try:
+            p = subprocess.run([tsan, "stress", real, "4", "40", str(40 if tier == "quick" else 400), str(seed + 1), hist],
+                               capture_output=True, text=True, timeout=900, env=env)
+        except subprocess.TimeoutExpired:
+            chk.violation("conc:%s:stress-hang" % real, "dense stress run on %s did not finish within 900 s" % real, dict(kind="stress", container=real, mode="tsan-dense"))
+            return
+        if p.returncode != 0:
+            chk.violation("conc:%s:stress-crash" % real, "dense stress run on %s died rc=%s: %s" % (real, p.returncode, p.stderr[-1500:]),
+                          dict(kind="stress", container=real, mode="tsan-dense"))
+        else:
+            chk.parts.setdefault("tsan_dense_runs", {})[real] = dict(reports=races_in(real, p.stderr, seen), operations=4 * 40 * (40 if tier == "quick" else 400))
+        if os.path.exists(hist): os.remove(hist)
 
     with ThreadPoolExecutor(5) as ex:
         list(ex.map(stress, sjobs))
